@@ -5,7 +5,14 @@ _isTopDummyBlockPresent), ExpansionData (setExpansionFactors / computeThermalExp
 target-component selection) and AssemblyAxialLinkage (built by the changer from the concrete cross-sections) run on a
 hand-built real HexAssembly: n pin-type blocks (fuel + clad + duct solids, a fluid gap) below a fluid-only DUMMY block.
 Block heights, one growth factor per solid component, number densities (hence masses) and - in the thermal variant -
-temperatures and the material law are symbolic."""
+temperatures and the material law are symbolic.
+
+Structure variants (parameter `struct`, one kind per block, see KINDS): assemblies that are NOT pin-linked from bottom to
+top (a grid-plate block with a single hexagon below the pins, a block without cladding, a block with another pin
+multiplicity: some solids - target or not - have NO axially linked component below them) and solids made of the
+user-defined `Custom` material (target and non-target).  Which components are solid, and which one is expected to be
+linked below which, is stated by the harness from the concrete structure (names / shape family / multiplicity), not
+taken from the changer's own helpers."""
 from symx.core import AND, OR, NOT, IMPLIES, IFF, ITE, CLOSE, Abort, is_sym
 from symx.engine import harness
 from symx import shims
@@ -52,7 +59,9 @@ KNOWN_DEFECT_zero_height_block = False  # repaired in /repo (fix: 6efafad)
 KNOWN_DEFECT_target_mass_needs_aligned_column = False  # recorded in known_findings.jsonl
 
 SOLIDS = ("fuel", "clad", "duct")
-NUC = {"fuel": "U235", "clad": "FE", "duct": "FE"}
+NUC = {"fuel": "U235", "clad": "FE", "duct": "FE", "grid plate": "FE"}
+FLUIDS = ("coolant", "intercoolant")            # every other component of the hand-built blocks is a solid
+FAMILY = {"fuel": "pin", "clad": "cladding", "duct": "hex", "grid plate": "hex"}   # axial linkage: same family + same mult
 HLO, HHI = 10.0, 400.0
 GLO, GHI = 0.5, 2.0
 
@@ -64,14 +73,82 @@ def mk_dummy(height=10.0):
     return b
 
 
-def build(ctx, n, targets=None, tag="h", heights=None):
-    """n pin blocks + dummy; symbolic heights and one symbolic density per solid.  targets[k] names the component
-    that drives block k (default: the fuel, chosen by the changer itself for fuel blocks)."""
+def _gap():
+    return components.Hexagon("intercoolant", "Sodium", Tinput=25.0, Thot=400, op=16.2, ip=16.0, mult=1.0)
+
+
+def _duct():
+    return components.Hexagon("duct", "HT9", Tinput=25.0, Thot=400, op=16, ip=15.3, mult=1.0)
+
+
+def _pins(fuelMat="UZr", cladMat="HT9", mult=127.0, od=0.76):
+    return [components.Circle("fuel", fuelMat, Tinput=25.0, Thot=600, od=od, id=0.0, mult=mult),
+            components.Circle("clad", cladMat, Tinput=25.0, Thot=450, od=od + 0.04, id=od + 0.01, mult=mult)]
+
+
+# block kinds; all but "plate" are fuel blocks whose target (chosen by the changer) is the fuel
+KINDS = {
+    "pin": lambda: None,                                         # _build.mk_block: fuel, clad (127 pins), duct, gap
+    "plate": lambda: [components.Hexagon("grid plate", "HT9", Tinput=25.0, Thot=400, op=16.0, ip=0.0, mult=1.0), _gap()],
+    "noclad": lambda: [_pins()[0], _duct(), _gap()],             # component set differs: clad above is unlinked
+    "pin61": lambda: _pins(mult=61.0, od=1.1) + [_duct(), _gap()],   # multiplicity differs: pins above/below unlinked
+    "cclad": lambda: _pins(cladMat="Custom") + [_duct(), _gap()],    # non-target solid of the user-defined material
+    "cfuel": lambda: _pins(fuelMat="Custom") + [_duct(), _gap()],    # target solid of the user-defined material
+}
+
+
+def mk_kind(kind):
+    comps = KINDS[kind]()
+    if comps is None:
+        return _build.mk_block("fuel")
+    name = "grid plate" if kind == "plate" else "fuel"
+    b = blocks.HexBlock(name, height=10.0)
+    for c in comps:
+        b.add(c)
+    b.setType(name)
+    return b
+
+
+def vn(c):
+    return c.name.replace(" ", "_")
+
+
+def bsolids(b):
+    """The solid components of a block, from the concrete structure (NOT the changer's iterSolidComponents)."""
+    return [c for c in b if c.name not in FLUIDS]
+
+
+def expected_targets(n, targets=None, struct=None):
+    """Name of the component that has to drive each block: the one requested, else ('auto'/'fuel') the one the changer
+    must pick itself - the fuel of a fuel block, the only solid of a grid-plate block."""
+    out = []
+    for k in range(n):
+        t = "auto" if targets is None else targets[k]
+        if t in ("auto", "fuel"):
+            t = "grid plate" if struct is not None and struct[k] == "plate" else "fuel"
+        out.append(t)
+    return out
+
+
+def expected_lower(a, k, c):
+    """The solid of the block below that c is axially linked to: same shape family (pin on pin, cladding on cladding,
+    hexagonal can/plate on hexagonal can/plate; in the hand-built kinds these overlap radially) and same multiplicity;
+    None when the block below has none."""
+    if k == 0:
+        return None
+    cands = [o for o in bsolids(a[k - 1]) if FAMILY[o.name] == FAMILY[c.name] and o.p.mult == c.p.mult]
+    assert len(cands) <= 1
+    return cands[0] if cands else None
+
+
+def build(ctx, n, targets=None, tag="h", heights=None, struct=None):
+    """n blocks (kinds `struct`, default all "pin") + dummy; symbolic heights and one symbolic density per solid.
+    targets[k] names the component that drives block k ("fuel"/"auto": chosen by the changer itself)."""
     a = assemblies.HexAssembly("fuel")
     a.spatialGrid = grids.AxialGrid.fromNCells(n + 1)
     a.spatialGrid.armiObject = a
     for k in range(n):
-        a.add(_build.mk_block("fuel"))
+        a.add(mk_kind("pin" if struct is None else struct[k]))
     a.add(mk_dummy())
     hs = []
     for k, b in enumerate(a):
@@ -82,17 +159,31 @@ def build(ctx, n, targets=None, tag="h", heights=None):
         for c in b:
             c.p.volume = None
             if c.name in NUC:
-                c.p.numberDensities = {NUC[c.name]: ctx.real("n%d_%s" % (k, c.name), 0.01, 10.0)}
-        if targets is not None and k < n and targets[k] != "fuel":
+                c.p.numberDensities = {NUC[c.name]: ctx.real("n%d_%s" % (k, vn(c)), 0.01, 10.0)}
+        if targets is not None and k < n and targets[k] not in ("fuel", "auto"):
             b.p.axialExpTargetComponent = targets[k]
     a.calculateZCoords()
     ctx.check("top block is flagged DUMMY, the others are not",
               AND(a[-1].hasFlags(Flags.DUMMY), not any(b.hasFlags(Flags.DUMMY) for b in a[:-1])))
+    for k, b in enumerate(a):
+        ctx.check("block %d: the changer's solid components are exactly the non-fluid ones (whatever the material)" % k,
+                  [id(c) for c in iterSolidComponents(b)] == [id(c) for c in bsolids(b)])
     return a, hs
 
 
 def solids(a):
-    return [c for b in a[:-1] for c in iterSolidComponents(b)]
+    return [c for b in a[:-1] for c in bsolids(b)]
+
+
+def all_placed(ctx, a, tag):
+    """Every solid below the dummy block must have been given an axial position by the expansion."""
+    ok = True
+    for k, b in enumerate(a[:-1]):
+        for c in bsolids(b):
+            placed = hasattr(c, "zbottom") and hasattr(c, "ztop")
+            ctx.check("%s: block %d %s has been placed axially" % (tag, k, c.name), placed)
+            ok = ok and placed
+    return ok
 
 
 def snapshot(a):
@@ -146,13 +237,22 @@ def check_geometry(ctx, a, changer, before, tag, n, targets=None):
             ctx.check("%s: block %d has exactly one target component" % (tag, k), t is not None)
             ctx.check_close("%s: block %d boundary moves with its target component" % (tag, k), b.p.ztop, t.ztop,
                             scale=H)
-            for c in iterSolidComponents(b):
-                low = changer.linked.linkedComponents[c].lower
+            for c in bsolids(b):
+                link = changer.linked.linkedComponents.get(c)
+                ctx.check("%s: block %d %s takes part in the axial linkage" % (tag, k, c.name), link is not None)
+                if link is None:
+                    continue
+                low = link.lower
+                ctx.check("%s: block %d %s is linked to the matching component below (same family and multiplicity), "
+                          "to nothing if there is none" % (tag, k, c.name), low is expected_lower(a, k, c))
                 if low is not None:
                     ctx.check_close("%s: block %d %s stays stacked on the linked component below" % (tag, k, c.name),
                                     c.zbottom, low.ztop, scale=H)
                 elif k == 0:
                     ctx.check_close("%s: bottom block %s starts at 0" % (tag, c.name), c.zbottom, 0.0, scale=H)
+                else:
+                    ctx.check_close("%s: block %d %s has nothing linked below: it rests on the (re-stacked) top of the "
+                                    "block below" % (tag, k, c.name), c.zbottom, a[k - 1].p.ztop, scale=H)
 
 
 def check_masses(ctx, a, changer, before, g, tag, n, canary=False):
@@ -171,8 +271,8 @@ def check_masses(ctx, a, changer, before, g, tag, n, canary=False):
         else:
             ctx.check_close("%s: block %d: mass of the target component (%s) conserved" % (tag, k, t.name), got, m0,
                             scale=m0)
-        same = AND(*[g[c] == g[t] for c in iterSolidComponents(b)])
-        for c in iterSolidComponents(b):
+        same = AND(*[g[c] == g[t] for c in bsolids(b)])
+        for c in bsolids(b):
             ctx.check("%s: block %d: all solids grown alike => mass of %s conserved" % (tag, k, c.name),
                       IMPLIES(AND(aligned, same), CLOSE(c.getMass(), before["mass"][c], before["mass"][c])))
             ctx.check_close("%s: block %d: density of %s divided by its growth factor" % (tag, k, c.name),
@@ -185,36 +285,49 @@ def check_masses(ctx, a, changer, before, g, tag, n, canary=False):
 @harness("C12", bounds="real HexAssembly: n pin blocks (fuel, clad, duct solids + sodium gap) + fluid DUMMY block, "
                        "n=2 quick / 3 (incl. mixed targets) ; block heights in [10,400] cm, one growth factor L1/L0 in "
                        "[0.5,2] per solid component, one number density per solid, all symbolic; target component per "
-                       "block enumerated (fuel everywhere = aligned column; clad in one block = misaligned)",
+                       "block enumerated (fuel everywhere = aligned column; clad in one block = misaligned); block "
+                       "kinds enumerated (struct): grid-plate block with one hexagon below the pins, block without clad, "
+                       "block with 61 instead of 127 pins (= solids with nothing linked below), clad or fuel made of the "
+                       "user-defined Custom material; targets 'auto' = chosen by the changer",
          stubs=STUBS, qtimeout_ms=30000,
          instances={"quick": [dict(n=2, targets=("fuel", "fuel")), dict(n=3, targets=("fuel", "fuel", "fuel")),
                               dict(n=2, targets=("clad", "fuel")), dict(n=2, targets=("fuel", "clad")),
-                              dict(n=3, targets=("fuel", "clad", "fuel"))],
+                              dict(n=3, targets=("fuel", "clad", "fuel")),
+                              dict(n=2, targets=("auto",) * 2, struct=("plate", "pin")),
+                              dict(n=2, targets=("auto",) * 2, struct=("noclad", "cclad")),
+                              dict(n=2, targets=("auto",) * 2, struct=("pin", "cfuel"))],
                     "thorough": [dict(n=3, targets=("clad", "clad", "fuel")), dict(n=3, targets=("clad", "fuel", "clad")),
-                                 dict(n=4, targets=("fuel",) * 4)]})
-def prescribed_expansion_keeps_height_contiguity_and_target_mass(ctx, n, targets):
-    a, hs = build(ctx, n, targets)
+                                 dict(n=4, targets=("fuel",) * 4),
+                                 dict(n=3, targets=("auto",) * 3, struct=("plate", "pin", "pin")),
+                                 dict(n=3, targets=("auto",) * 3, struct=("pin", "pin61", "pin")),
+                                 dict(n=3, targets=("auto",) * 3, struct=("cfuel", "noclad", "cclad")),
+                                 dict(n=2, targets=("auto",) * 2, struct=("pin61", "pin"))]})
+def prescribed_expansion_keeps_height_contiguity_and_target_mass(ctx, n, targets, struct=None):
+    a, hs = build(ctx, n, targets, struct=struct)
+    tnames = expected_targets(n, targets, struct)
     comps = solids(a)
-    g = {c: ctx.real("g%d_%s" % (k, c.name), GLO, GHI) for k, b in enumerate(a[:-1]) for c in iterSolidComponents(b)}
+    g = {c: ctx.real("g%d_%s" % (k, vn(c)), GLO, GHI) for k, b in enumerate(a[:-1]) for c in bsolids(b)}
     before = snapshot(a)
     changer = AxialExpansionChanger(detailedAxialExpansion=True)
     raised = expand(changer, a, comps, [g[c] for c in comps])
-    aligned = all(t == "fuel" for t in targets)
+    # one aligned target column: every target rests on the target of the block below or, with nothing linked below it
+    # (pins on a grid plate, other pin multiplicity), on the top of the block below
+    aligned = len(set(targets)) == 1
     if aligned:
-        fuels = [b.getComponent(Flags.FUEL) for b in a[:-1]]
+        fuels = [b.getComponentByName(t) for b, t in zip(a[:-1], tnames)]
         room = before["total"] - sum(g[f] * h for f, h in zip(fuels, hs))
         if ctx.canary:
             room = room + ITE(AND(hs[0] > 399, g[fuels[0]] > 1.99), 1.0, 0.0)
         # (blocks must keep a positive height: using up the whole room is refused as well)
         ctx.check("ArithmeticError exactly when the grown target column no longer fits below the top",
                   IFF(raised, room <= 0))
-    if raised:
+    if raised or not all_placed(ctx, a, "after"):
         return
     check_geometry(ctx, a, changer, before, "after", n, targets)
     check_masses(ctx, a, changer, before, g, "after", n, canary=ctx.canary and not aligned)
     for k, b in enumerate(a[:-1]):
         t = target_of(changer, b)
-        ctx.check("block %d: the designated target is the one requested" % k, t.name == targets[k])
+        ctx.check("block %d: the designated target is the one requested" % k, t.name == tnames[k])
         if aligned:
             ctx.check_close("block %d: new height = growth of the target x old height" % k, b.getHeight(),
                             g[t] * hs[k], scale=before["total"])
@@ -226,21 +339,24 @@ def prescribed_expansion_keeps_height_contiguity_and_target_mass(ctx, n, targets
 
 @harness("C12", bounds="as above; history of two expansions: factors g, then the inverse factors 1/g on the same "
                        "components", stubs=STUBS, qtimeout_ms=30000,
-         instances={"quick": [dict(n=2, targets=("fuel", "fuel")), dict(n=3, targets=("fuel", "fuel", "fuel"))],
+         instances={"quick": [dict(n=2, targets=("fuel", "fuel")), dict(n=3, targets=("fuel", "fuel", "fuel")),
+                              dict(n=2, targets=("auto",) * 2, struct=("plate", "cclad"))],
                     # mixed targets sit entirely inside a recorded known finding (slow: the solver is asked for violations
                     # outside it): thorough tier only
                     "thorough": [dict(n=2, targets=("clad", "fuel")), dict(n=3, targets=("fuel", "clad", "fuel")),
-                                 dict(n=4, targets=("fuel",) * 4)]})
-def expansion_then_inverse_restores_the_assembly(ctx, n, targets):
-    a, hs = build(ctx, n, targets)
+                                 dict(n=4, targets=("fuel",) * 4),
+                                 dict(n=3, targets=("auto",) * 3, struct=("plate", "cfuel", "pin")),
+                                 dict(n=3, targets=("auto",) * 3, struct=("pin", "pin61", "noclad"))]})
+def expansion_then_inverse_restores_the_assembly(ctx, n, targets, struct=None):
+    a, hs = build(ctx, n, targets, struct=struct)
     comps = solids(a)
-    g = {c: ctx.real("g%d_%s" % (k, c.name), GLO, GHI) for k, b in enumerate(a[:-1]) for c in iterSolidComponents(b)}
+    g = {c: ctx.real("g%d_%s" % (k, vn(c)), GLO, GHI) for k, b in enumerate(a[:-1]) for c in bsolids(b)}
     if KNOWN_DEFECT_target_mass_needs_aligned_column and any(t != targets[0] for t in targets):
         # mixed target kinds: restoration is claimed (and holds) when all solids of a block grow alike, which keeps
         # the target column aligned; with independent factors the inverse change does NOT restore the heights
         # (same limitation as above; set the flag to False to see the counterexample)
         for b in a[:-1]:
-            cs = list(iterSolidComponents(b))
+            cs = bsolids(b)
             for c in cs[1:]:
                 g[c] = g[cs[0]]
     start = snapshot(a)
@@ -250,7 +366,7 @@ def expansion_then_inverse_restores_the_assembly(ctx, n, targets):
     mid = snapshot(a)
     raised = expand(changer, a, comps, [1 / g[c] for c in comps])
     ctx.check("the inverse change never fails", not raised)
-    if raised:
+    if raised or not all_placed(ctx, a, "after the inverse"):
         return
     check_geometry(ctx, a, changer, mid, "after the inverse", n, targets)
     H = start["total"]
@@ -268,18 +384,20 @@ def expansion_then_inverse_restores_the_assembly(ctx, n, targets):
 @harness("C12", bounds="as above; history of two independent expansions (second round of symbolic factors applied to "
                        "the already expanded assembly); mixed-target variant", stubs=STUBS, qtimeout_ms=30000,
          instances={"quick": [dict(n=2, targets=("fuel", "fuel")), dict(n=2, targets=("fuel", "clad"))],
-                    "thorough": [dict(n=3, targets=("fuel", "fuel", "fuel")), dict(n=3, targets=("clad", "fuel", "fuel"))]})
-def second_expansion_keeps_the_invariants(ctx, n, targets):
-    a, hs = build(ctx, n, targets)
+                    "thorough": [dict(n=3, targets=("fuel", "fuel", "fuel")), dict(n=3, targets=("clad", "fuel", "fuel")),
+                                 dict(n=2, targets=("auto",) * 2, struct=("plate", "cfuel")),
+                                 dict(n=3, targets=("auto",) * 3, struct=("noclad", "pin", "pin61"))]})
+def second_expansion_keeps_the_invariants(ctx, n, targets, struct=None):
+    a, hs = build(ctx, n, targets, struct=struct)
     comps = solids(a)
-    names = {c: "%d_%s" % (k, c.name) for k, b in enumerate(a[:-1]) for c in iterSolidComponents(b)}
+    names = {c: "%d_%s" % (k, vn(c)) for k, b in enumerate(a[:-1]) for c in bsolids(b)}
     g1 = {c: ctx.real("g" + names[c], GLO, GHI) for c in comps}
     g2 = {c: ctx.real("k" + names[c], GLO, GHI) for c in comps}
     changer = AxialExpansionChanger(detailedAxialExpansion=True)
     if expand(changer, a, comps, [g1[c] for c in comps]):
         return
     mid = snapshot(a)
-    if expand(changer, a, comps, [g2[c] for c in comps]):
+    if expand(changer, a, comps, [g2[c] for c in comps]) or not all_placed(ctx, a, "second round"):
         return
     check_geometry(ctx, a, changer, mid, "second round", n, targets)
     check_masses(ctx, a, changer, mid, g2, "second round", n, canary=ctx.canary)
@@ -341,25 +459,28 @@ def thermal_expand(changer, a, temps):
                        "block temperature, as the 1-D temperature-field route assigns them), densities symbolic, "
                        "block heights concrete per instance (thorough: one symbolic height; a dummy block too short "
                        "for the growth = error path); thermal route updateComponentTemp -> "
-                       "computeThermalExpansionFactors -> axiallyExpandAssembly, then back to the old temperatures",
+                       "computeThermalExpansionFactors -> axiallyExpandAssembly, then back to the old temperatures; "
+                       "struct: block kinds as in the prescribed harness (pins above a grid-plate hexagon etc.)",
          stubs=STUBS + ["solid materials replaced by a Material subclass whose linearExpansionPercent is an uninterpreted "
                         "function (any material law)"], qtimeout_ms=10000,
-         instances={"quick": [dict(n=2, heights=(25.0, 40.0, 30.0)), dict(n=2, heights=(12.0, 150.0, 60.0))],
+         instances={"quick": [dict(n=2, heights=(25.0, 40.0, 30.0)), dict(n=2, heights=(12.0, 150.0, 60.0)),
+                              dict(n=2, heights=(20.0, 45.0, 30.0), struct=("plate", "pin"))],
                     "thorough": [dict(n=2, heights=(25.0, 40.0, 5.0)), dict(n=2, heights=(None, 40.0, 300.0)),
-                                 dict(n=3, heights=(15.0, 60.0, 35.0, 25.0))]})
-def thermal_expansion_keeps_height_and_mass_for_any_law(ctx, n, heights):
+                                 dict(n=3, heights=(15.0, 60.0, 35.0, 25.0)),
+                                 dict(n=2, heights=(30.0, 45.0, 40.0), struct=("noclad", "pin61"))]})
+def thermal_expansion_keeps_height_and_mass_for_any_law(ctx, n, heights, struct=None):
     if ctx.mode == "sym" and ctx.pins is not None:
         # the engine's pinned differential run cannot pin the uninterpreted law (it skips the comparison anyway) but
         # would spend minutes on branch queries; the concrete self-test runs on plain numbers are unaffected
         raise Abort("pinned differential run skipped (uninterpreted material law)")
-    a, hs = build(ctx, n, heights=heights)
+    a, hs = build(ctx, n, heights=heights, struct=struct)
     told = [ctx.real("Told%d" % k, 0.0, 1500.0) for k in range(n)]
     tnew = [ctx.real("Tnew%d" % k, 0.0, 1500.0) for k in range(n)]
     law = install_law(ctx, told + tnew)
     comps = solids(a)
     oldT, newT = {}, {}
     for k, b in enumerate(a[:-1]):
-        for c in iterSolidComponents(b):
+        for c in bsolids(b):
             c.material = SymSolid()
             c.inputTemperatureInC = TIN
             c.temperatureInC = told[k]
@@ -368,7 +489,7 @@ def thermal_expansion_keeps_height_and_mass_for_any_law(ctx, n, heights):
         b.clearCache()
     start = snapshot(a)
     changer = AxialExpansionChanger(detailedAxialExpansion=True)
-    if thermal_expand(changer, a, newT):
+    if thermal_expand(changer, a, newT) or not all_placed(ctx, a, "thermal"):
         return
     g = {}
     for c in comps:
@@ -385,7 +506,7 @@ def thermal_expansion_keeps_height_and_mass_for_any_law(ctx, n, heights):
         t = target_of(changer, b)
         ctx.check_close("thermal: block %d height follows the target" % k, b.getHeight(), g[t] * hs[k],
                         scale=start["total"])
-        for c in iterSolidComponents(b):
+        for c in bsolids(b):
             # every solid of the block is at the block temperature and obeys the same law: all grow alike
             ctx.check_close("thermal: block %d: mass of %s conserved (radial + axial change)" % (k, c.name),
                             c.getMass(), start["mass"][c], scale=start["mass"][c])
@@ -454,7 +575,7 @@ def missing_dummy_block_is_refused_or_top_block_absorbs(ctx, n, detailed):
             c.p.volume = None
     a.calculateZCoords()
     H = sum(hs)
-    comps = [c for b in a for c in iterSolidComponents(b)]
+    comps = [c for b in a for c in bsolids(b)]
     g = {c: ctx.real("g%d" % i, GLO, GHI) for i, c in enumerate(comps)}
     changer = AxialExpansionChanger(detailedAxialExpansion=detailed)
     try:
